@@ -401,7 +401,8 @@ def x_via(op) -> str:
     if op[0] == "xwrite":
         return "write"
     how = op[2] if op[0] == "xcreate" else op[3]
-    return "set-A0" if how in NO_DTYPE else "create-dtype"
+    alone = ref_outcome(["xcreate", "probe", "setitem", op[-1]]) == "MARK"     # a marker whatever the target type
+    return "set-A0" if how in NO_DTYPE or alone else "create-dtype"
 
 
 def exotic_histories() -> List[List[Any]]:
@@ -650,6 +651,7 @@ def impl_run(case) -> Dict[str, Any]:
     (ValueError/KeyError), E other exception, X timeout / unusable."""
     driver, ops = case
     paths = paths_of(ops)
+    xhist = any(op[0] == "xcreate" or op[0] == "xwrite" or op[0] == "xattr" for op in ops)
     steps: List[Any] = []
     with vlib.workdir("c17") as d:
         run = _Run(driver, d)
@@ -677,7 +679,14 @@ def impl_run(case) -> Dict[str, Any]:
                             raise
                         except Exception as e:  # noqa: BLE001
                             res, err = "E", f"{type(e).__name__}: {e}"[:160]
-                        obs = run.observe(paths)
+                        if xhist and op[0] in ("set", "xcreate", "xwrite", "xattr", "xattr0"):
+                            # long marker-form histories: re-read only the node aimed at (everything is
+                            # re-read at the copy / boundary steps that end such a history)
+                            part = dict(prev)
+                            part.update(zip([op[1]], run.observe([op[1]])) if op[1] in paths else [])
+                            obs = [part.get(p, []) for p in paths]
+                        else:
+                            obs = run.observe(paths)
                         if attempt:
                             mk = {"raw_unchanged": _raw_dump(run.files()) == before}
                 except vlib.CaseTimeout:
@@ -925,12 +934,13 @@ def run(ctx: vlib.Ctx):
     for h in marker_histories():
         cases += [(drv, [list(ANCHOR)] + h) for drv in DRIVERS]
     first_x = len(cases)          # from here on: oracle only, no model
-    for h in exotic_histories():
-        cases += [(drv, [list(ANCHOR)] + h) for drv in DRIVERS]
+    xh = exotic_histories()
+    for h in (xh[:6] if ctx.quick else xh):        # quick: base container and patch; thorough: merged record too
+        cases += [(drv, [list(ANCHOR)] + h) for drv in ("ih5", "mf")]    # plain HDF5 has no marker to guard
     hist = [h for _, h in cases]
     import time as _t
     t0 = _t.time()
-    results = vlib.pmap(w_impl, cases, chunksize=4)
+    results = vlib.pmap(w_impl, cases[:first_x], chunksize=4) + vlib.pmap(w_impl, cases[first_x:], chunksize=1)
     vlib.log(f"c17: {len(cases)} impl cases in {_t.time() - t0:.1f}s")
     # timeouts under CPU contention: re-run those cases alone, sequentially
     for i, r in enumerate(results):
